@@ -90,9 +90,14 @@ func setThr(cluster, path string, ft, st int) {
 // behave as expected, the observation will differ anyway) the remaining waits of that case are short
 var caseBroken bool
 
+var brokenCases int
+
 func patience() time.Duration {
 	if caseBroken {
 		return 20 * time.Millisecond
+	}
+	if brokenCases >= 10 { // the implementation evidently deviates: do not spend 3 s on every further case
+		return 100 * time.Millisecond
 	}
 	return 3 * time.Second
 }
@@ -150,6 +155,9 @@ func impl(in hv.Val) hv.Val {
 		return hv.Err(0)
 	}
 	serial++
+	if caseBroken {
+		brokenCases++
+	}
 	caseBroken = false
 	cluster, path := fmt.Sprintf("cl%d", serial), fmt.Sprintf("/c%d", serial)
 	mu.Lock()
